@@ -1,1 +1,155 @@
-// harness bodies compiled inside quinn-proto/src/connection/paths.rs (feature __verif-hooks)
+// Harness bodies for quinn-proto/src/connection/paths.rs.
+
+const V62: u64 = 1 << 62;
+
+fn mk_path(validated: bool, total_sent: u64, total_recvd: u64, generation: u64, in_bytes: u64, in_ack_eliciting: u64) -> Option<PathData> {
+    let now = crate::verif::mk_instant(1, 0)?;
+    let cfg = std::sync::Arc::new(congestion::NewRenoConfig::default());
+    Some(PathData {
+        remote: SocketAddr::new(std::net::IpAddr::V4(std::net::Ipv4Addr::new(10, 0, 0, 1)), 4433),
+        rtt: RttEstimator::new(Duration::from_millis(100)),
+        sending_ecn: true,
+        congestion: Box::new(congestion::NewReno::new(cfg, now, 1200)),
+        pacing: Pacer::new(Duration::from_millis(100), 12000, 1200, None, now),
+        challenge: None,
+        challenge_pending: false,
+        validated,
+        total_sent,
+        total_recvd,
+        mtud: MtuDiscovery::disabled(1200, 1200),
+        first_packet_after_rtt_sample: None,
+        in_flight: InFlight { bytes: in_bytes, ack_eliciting: in_ack_eliciting },
+        first_packet: None,
+        generation,
+    })
+}
+
+/// C07.a: the anti-amplification predicate.  For all counters below 2^62: "not blocked" implies
+/// the address is validated or total_sent + bytes_to_send <= 3 * total_recvd, and "blocked"
+/// implies unvalidated and strictly over budget; no overflow in that domain.
+pub fn anti_amplification(validated: bool, total_sent: u64, total_recvd: u64, bytes_to_send: u64) -> u32 {
+    if total_sent >= V62 || total_recvd >= V62 || bytes_to_send >= V62 {
+        return 0;
+    }
+    let Some(p) = mk_path(validated, total_sent, total_recvd, 0, 0, 0) else { return 0 };
+    let blocked = p.anti_amplification_blocked(bytes_to_send);
+    let over = (total_sent as u128 + bytes_to_send as u128) > 3 * total_recvd as u128;
+    assert!(blocked == (!validated && over));
+    let f = if blocked { 2 } else if validated { 4 } else { 1 };
+    // monotone: receiving more never blocks, sending more never unblocks
+    if !blocked && total_recvd + 1 < V62 {
+        let Some(mut q) = mk_path(validated, total_sent, total_recvd + 1, 0, 0, 0) else { return 0 };
+        assert!(!q.anti_amplification_blocked(bytes_to_send));
+        q.total_recvd = total_recvd;
+        core::mem::forget(q);
+    }
+    core::mem::forget(p);
+    f
+}
+
+fn mk_sent_packet(generation: u64, size: u16, ack_eliciting: bool) -> Option<SentPacket> {
+    Some(SentPacket {
+        path_generation: generation,
+        time_sent: crate::verif::mk_instant(1, 0)?,
+        size,
+        ack_eliciting,
+        largest_acked: None,
+        retransmits: Default::default(),
+        stream_frames: Default::default(),
+    })
+}
+
+/// C12.b: in-flight accounting: `remove_in_flight` is the exact inverse of the insert done by
+/// `sent` for packets of this path generation, and leaves the counters untouched for packets of
+/// another generation (sent on an earlier path).
+pub fn in_flight_accounting(bytes: u64, ack_eliciting: u64, path_gen: u64, pkt_gen: u64, size: u16, eliciting: bool) -> u32 {
+    if bytes >= V62 || ack_eliciting >= V62 {
+        return 0;
+    }
+    let Some(mut p) = mk_path(true, 0, 0, path_gen, bytes, ack_eliciting) else { return 0 };
+    let Some(pkt) = mk_sent_packet(pkt_gen, size, eliciting) else { return 0 };
+    p.in_flight.insert(&pkt);
+    assert!(p.in_flight.bytes == bytes + size as u64);
+    assert!(p.in_flight.ack_eliciting == ack_eliciting + eliciting as u64);
+    let removed = p.remove_in_flight(&pkt);
+    let f;
+    if pkt_gen == path_gen {
+        assert!(removed);
+        assert!(p.in_flight.bytes == bytes && p.in_flight.ack_eliciting == ack_eliciting);
+        f = 1;
+    } else {
+        assert!(!removed);
+        assert!(p.in_flight.bytes == bytes + size as u64);
+        f = 2;
+    }
+    assert!(p.generation() == path_gen);
+    core::mem::forget(p);
+    core::mem::forget(pkt);
+    f
+}
+
+/// C03: `PathResponses::push` is bounded (<= 16 entries), keeps one entry per remote and prefers
+/// the challenge from the newest packet; pop_on_path / pop_off_path hand each response out once.
+pub fn path_responses(p1: u64, t1: u64, port1: u16, p2: u64, t2: u64, port2: u16, on_port: u16) -> u32 {
+    let addr = |port: u16| SocketAddr::new(std::net::IpAddr::V4(std::net::Ipv4Addr::new(10, 0, 0, 1)), port);
+    let mut r = PathResponses::default();
+    assert!(r.is_empty());
+    r.push(p1, t1, addr(port1));
+    r.push(p2, t2, addr(port2));
+    let mut f = 1;
+    if port1 == port2 {
+        assert!(r.pending.len() == 1);
+        let want = if p1 <= p2 { t2 } else { t1 };
+        assert!(r.pending[0].token == want);
+        f |= 2;
+    } else {
+        assert!(r.pending.len() == 2);
+    }
+    let n0 = r.pending.len();
+    let last = *r.pending.last().unwrap();
+    let on = r.pop_on_path(addr(on_port));
+    if last.remote == addr(on_port) {
+        assert!(on == Some(last.token));
+        assert!(r.pending.len() == n0 - 1);
+        f |= 4;
+    } else {
+        assert!(on.is_none());
+        let off = r.pop_off_path(addr(on_port));
+        assert!(off == Some((last.token, last.remote)));
+        assert!(r.pending.len() == n0 - 1);
+        f |= 8;
+    }
+    core::mem::forget(r);
+    f
+}
+
+/// C03: RTT estimator update with arbitrary (peer-influenced) ack delay and samples below 2^32 s:
+/// no Duration overflow; min <= latest; smoothed stays between the old smoothed value and the
+/// adjusted sample.
+pub fn rtt_update(latest_ms: u32, has_smoothed: bool, smoothed_ms: u32, var_ms: u32, min_ms: u32, ack_delay_ms: u32, rtt_ms: u32) -> u32 {
+    let d = |ms: u32| Duration::from_millis(ms as u64);
+    if min_ms > latest_ms {
+        return 0;
+    }
+    let mut e = RttEstimator { latest: d(latest_ms), smoothed: if has_smoothed { Some(d(smoothed_ms)) } else { None }, var: d(var_ms), min: d(min_ms) };
+    e.update(d(ack_delay_ms), d(rtt_ms));
+    assert!(e.latest == d(rtt_ms));
+    assert!(e.min <= e.latest);
+    let f;
+    if has_smoothed {
+        assert!(e.min == d(min_ms.min(rtt_ms)));
+        let adjusted = if min_ms.min(rtt_ms) as u64 + ack_delay_ms as u64 <= rtt_ms as u64 { rtt_ms - ack_delay_ms } else { rtt_ms };
+        let lo = smoothed_ms.min(adjusted);
+        let hi = smoothed_ms.max(adjusted);
+        let s = e.smoothed.unwrap();
+        assert!(s >= d(lo) && s <= d(hi));
+        f = 1;
+    } else {
+        assert!(e.smoothed == Some(d(rtt_ms)) && e.min == d(rtt_ms));
+        f = 2;
+    }
+    assert!(e.get() == e.smoothed.unwrap());
+    assert!(e.conservative() >= e.get() && e.conservative() >= e.latest);
+    assert!(e.pto_base() >= e.get() + crate::TIMER_GRANULARITY);
+    f
+}
